@@ -14,6 +14,9 @@ from bounded import api  # noqa: E402
 BUDGET = {"quick": 75.0, "thorough": 900.0}
 
 
+library_failure = api.library_failure
+
+
 def main():
     ap = argparse.ArgumentParser()
     ap.add_argument("prop")
@@ -26,6 +29,7 @@ def main():
     budget = a.budget or BUDGET[a.tier]
     ctx = api.Ctx(a.prop, a.tier, a.seed, budget)
     res = None
+    mod = None
     try:
         api.use_repo()
         mod = importlib.import_module("bounded." + a.prop)
@@ -40,9 +44,21 @@ def main():
             mod.run(ctx)
         res = ctx.result(mod.CLAUSES, mod.BOUND)
         res["rule"] = getattr(mod, "RULE", mod.BOUND)
-    except Exception as e:  # a crash of the harness itself is a checker error, never a verdict
-        res = ctx.result({}, "")
-        res["errors"].append("harness crashed: %s: %s\n%s" % (type(e).__name__, e, traceback.format_exc(limit=12)))
+    except Exception as e:
+        lib = library_failure(e)
+        if lib is not None and mod is not None:
+            # the exception was raised INSIDE the library (or a library object lost an attribute the harness reads) in a scenario that the harness did
+            # not wrap in a guard: on the unchanged tree this never happens, so it is a verdict about the code (clause B.library.raises), not a checker error
+            site, wclass = lib
+            ctx.violation("B.library.raises", site, wclass, "%s: %s\n%s" % (type(e).__name__, e, traceback.format_exc(limit=8)))
+            clauses = dict(getattr(mod, "CLAUSES", {}))
+            clauses["B.library.raises"] = "no scenario of the universe makes the library raise an exception that the unchanged library does not raise"
+            res = ctx.result(clauses, getattr(mod, "BOUND", ""))
+            res["rule"] = getattr(mod, "RULE", getattr(mod, "BOUND", ""))
+            res["notes"] = list(res.get("notes", [])) + ["run aborted by an exception raised in the library; remaining cases not explored"]
+        else:   # a crash of the harness itself is a checker error, never a verdict
+            res = ctx.result({}, "")
+            res["errors"].append("harness crashed: %s: %s\n%s" % (type(e).__name__, e, traceback.format_exc(limit=12)))
     with open(a.out, "w") as f:
         json.dump(res, f, indent=1)
     return 0
